@@ -32,7 +32,7 @@ for p in props:
     })
 man = {
     "version": 1,
-    "setup_cmd": "/venv/bin/python -c \"import sys; sys.path.insert(0,'/verif'); from vf import boot; boot.ensure_deps(); import jsonschema, icontract\"",
+    "setup_cmd": "/venv/bin/python -c \"import sys; sys.path.insert(0,'/verif'); from vf import boot; boot.ensure_deps(); import jsonschema, icontract; ok, log = boot.build_rust(list(boot._RUST)); print('rust crates:', 'ok' if ok else 'FAILED ' + log[-400:])\"",
     "hooks": {"guard": "BREEZY_VERIF", "enable": "no source hooks: monitors attach from the harness (transport decorators, attribute rebinding, sys.monitoring); BREEZY_VERIF=1 is exported by the harness for completeness", "baseline_off_cmd": "cd /repo && env -u BREEZY_VERIF /venv/bin/python -m pytest -ra -q -p no:cacheprovider --timeout=900 --continue-on-collection-errors", "source_commits": [], "add_only": True},
     "engines": [{"name": "vf", "path": "/verif/vf", "serves_properties": [c["property_id"] for c in checks], "kind_free_text": "runtime monitoring: generated/hostile workloads on the real code, monitors and offline checkers over observed executions"}],
     "checks": checks,
